@@ -91,6 +91,18 @@ def cases(tier, seed):
                     for meth in METHODS:
                         yield {'t': 'protected', 'kind': kind, 'md': True, 'name': name, 'spelling': sp,
                                'method': meth, 'overwrite': meth.startswith('write'), 'prelude': 'none', 'via': via}
+    # user-made symbolic links INSIDE the array directory that lead to protected names (existing ones, and - dangling -
+    # ones that do not exist yet): writing through the alias is writing to the protected name
+    for kind, aliases in (('Array', [('alias.bin', 'arrayvalues.bin', ''), ('info.json', 'metadata.json', ''),
+                                     ('adescr', 'arraydescription.json', '')]),
+                          ('RaggedArray', [('extra', 'values', 'newfile.txt'), ('extra', 'values', 'arrayvalues.bin'),
+                                           ('idx', 'indices', 'arraydescription.json'), ('info.json', 'metadata.json', '')])):
+        for alias, target, below in aliases:
+            for meth in METHODS:
+                for md in (False, True):
+                    yield {'t': 'protected', 'kind': kind, 'md': md, 'name': (alias + '/' + below) if below else alias,
+                           'spelling': 'plain', 'method': meth, 'overwrite': meth.startswith('write'), 'prelude': 'none',
+                           'alias': [alias, target]}
     n = 300 if tier == 'quick' else 3000
     for k in range(n):
         yield {'t': 'user', 'kind': 'Array' if k % 2 else 'RaggedArray', 'k': k}
@@ -164,6 +176,9 @@ def run_case(case, env):
             env.darr.delete_array(env.darr.asarray(d / 'gone_a', [1, 2, 3], accessmode='r+'))
         a, p = make(env, d, case['kind'], case['md'], case.get('via'))
         res.dim('handle_path', case.get('via', 'plain'))
+        if case.get('alias'):
+            os.symlink(case['alias'][1], p / case['alias'][0])      # relative link inside the array directory
+            res.dim('alias', f"{case['alias'][0]} -> {case['alias'][1]}" + (' (dangling)' if not (p / case['alias'][1]).exists() else ''))
         fn = spell(case['name'], case['spelling'])
         if case.get('prelude') == 'read-open':
             # history: the same name is first opened read-only (allowed), through the same DataDir object
